@@ -359,6 +359,8 @@ impl SendRateComp {
             _ => panic!()
         }
 
+        self.send_rate = self.send_rate.min(self.max_send_rate);
+
         // Compute RTO for the new send rate, see section 4.4 step 2
         // No default RTT is specified by TFRC, but using RTT = 0 when no feedback has been
         // received will cause RTO to begin at 2s, and double each time send_rate is halved above.
